@@ -21,7 +21,7 @@ from concurrent.futures import ThreadPoolExecutor
 
 ROOT = os.path.dirname(os.path.dirname(os.path.abspath(__file__)))
 REPO = os.environ.get("PV_REPO", "/repo")
-BUILD = os.path.join(ROOT, ".build")
+BUILD = os.environ.get("PV_BUILD", os.path.join(ROOT, ".build"))
 COQ = os.path.join(ROOT, "coq")
 GUARD = "PISTACHE_VERIF"
 NCPU = os.cpu_count() or 4
